@@ -297,6 +297,10 @@ func report(res *CheckResult, p *Program, repo, tier string, seed int, evidenceP
 			continue
 		}
 		violations++
+		if violations > 12 {
+			// the first failing obligations carry replay files; the rest are listed in the evidence only
+			continue
+		}
 		rp := writeReplay(res, o, p, repo, replayDir)
 		suffix := ""
 		if !rp.Reproduced {
